@@ -21,6 +21,7 @@ for name in sorted(os.listdir(os.path.join(ROOT, "seeded"))):
         continue
     meta = json.load(open(os.path.join(d, "meta.json")))
     prop = meta["property"]
+    sh("git checkout -q -- . && git checkout -q --detach main", cwd=WT)  # /repo's main may have gained fix: commits
     a = sh("git apply %s/patch.diff" % d, cwd=WT)
     if a.returncode != 0:
         results[name] = {"property": prop, "error": "patch does not apply: " + a.stderr[:300]}
